@@ -142,9 +142,9 @@ def expected_coefs(order, z):
     return [h1, h1, h1, p1 - 3 * p2 + 4 * p3, p2 - 2 * p3, 4 * p3 - p2]
 
 
-def probe_phi(order, z, dt=0.5):
-    """stored coefficients / dt  vs  exact φ-combinations at z"""
-    integ = impl_integrator(order, dt, np.array([z / dt]), 16, 1.0)
+def probe_phi(order, z, dt=0.5, M=16, r=1.0):
+    """stored coefficients / dt  vs  exact φ-combinations at z (contour of M points, radius r)"""
+    integ = impl_integrator(order, dt, np.array([z / dt]), M, r)
     got = [complex(c[0]) / dt for c in impl_coefs(integ, order)[(2 if order >= 3 else 1):]]
     exp = [complex(x) for x in expected_coefs(order, z)]
     worst = 0.0
@@ -310,6 +310,22 @@ def oracle(ctx, deep):
                                       f"(rel err {r['worst_rel_err']:.2e})",
                               "probe": "phi", "args": {"order": order, "z": [z.real, z.imag]}, "observed": r})
                 break
+        # non-default contours: the coefficients are the same phi-combinations whatever circle they are integrated over
+        for (M, rad) in ((32, 2.0), (16, 0.5), (64, 1.0)):
+            hit = False
+            for z in (0.0, -1.0, -40.0, 1.0j, -3.0j, 30.0j, -2.0 + 5.0j, 1e-5, -1e3 + 1e3j):
+                z = complex(z)
+                r = probe_phi(order, z, 0.5, M, rad)
+                ctx.count(("oracle_phi_contour", order, M, rad))
+                if not r["ok"]:
+                    fails.append({"key": f"C02:phi-contour:order{order}",
+                                  "what": f"ETDRK{order}(num_circle_points={M}, circle_radius={rad}) stored coefficient differs from the exact phi-combination at z={z} "
+                                          f"(rel err {r['worst_rel_err']:.2e})",
+                                  "probe": "phi", "args": {"order": order, "z": [z.real, z.imag], "M": M, "r": rad}, "observed": r})
+                    hit = True
+                    break
+            if hit:
+                break
         for z in zs + [3.25j, -0.01 - 3.162j, -0.003 + 3.17j, 6.4j, -7.0j]:
             z = complex(z)
             r = probe_step(order, z)
@@ -334,7 +350,7 @@ def oracle(ctx, deep):
 
 def replay(probe, args):
     if probe == "phi":
-        return probe_phi(args["order"], complex(*args["z"]))
+        return probe_phi(args["order"], complex(*args["z"]), 0.5, args.get("M", 16), args.get("r", 1.0))
     if probe == "step":
         return probe_step(args["order"], complex(*args["z"]))
     return PROBES[probe](**args)
